@@ -40,6 +40,7 @@ type KsScript struct {
 	Picks     []int      `json:"picks,omitempty"` // recorded schedule (replay); empty = draw from the seed
 	CrashAt   int        `json:"crash_at,omitempty"`
 	Hostile   []KsFile   `json:"hostile,omitempty"`
+	Preload   []KsOp     `json:"preload,omitempty"` // saves made by an earlier process (another KeyStore instance) before the concurrent phase
 	Violation *Violation `json:"violation,omitempty"`
 	TraceHash string     `json:"trace_sha256,omitempty"`
 }
@@ -419,6 +420,13 @@ func genKsScript(seed uint64) *KsScript {
 			s.Tasks[t] = append(s.Tasks[t], KsOp{Kind: "loadByAddress", Addr: a})
 		}
 	}
+	if r.Chance(0.4) {
+		// key files that are already on disk when this KeyStore instance is created (saved by an earlier process)
+		for i := r.Range(1, 2); i > 0; i-- {
+			keyN++
+			s.Preload = append(s.Preload, KsOp{Kind: "save", Addr: addrs[r.Intn(len(addrs))], Key: fmt.Sprintf("%064x", uint64(keyN)+seed<<8)})
+		}
+	}
 	if r.Chance(0.2) {
 		s.CrashAt = r.Range(4, 30)
 	}
@@ -501,6 +509,19 @@ func runKsScript(sc *KsScript, scratch string) *KsResult {
 		panic(err)
 	}
 	defer os.RemoveAll(dir)
+	if len(sc.Preload) > 0 {
+		prev, err := didcrypto.NewKeyStore(dir)
+		if err != nil {
+			panic(err)
+		}
+		for _, op := range sc.Preload {
+			key, _ := hex.DecodeString(op.Key)
+			if _, err := prev.Save(op.Addr, key, ksPass); err != nil {
+				panic(err)
+			}
+			time.Sleep(time.Millisecond) // file names carry the time: keep the order of the earlier saves
+		}
+	}
 	ks, err := didcrypto.NewKeyStore(dir)
 	if err != nil {
 		panic(err)
@@ -538,6 +559,10 @@ func runKsScript(sc *KsScript, scratch string) *KsResult {
 	// which porcupine models by giving them an unbounded return time)
 	if out.Deadlock == "" && out.Stall == "" {
 		var ops []porcupine.Operation
+		for i, op := range sc.Preload {
+			// completed before any concurrent operation was called
+			ops = append(ops, porcupine.Operation{ClientId: 90 + i, Input: ksIn{Kind: "save", Addr: op.Addr, Key: op.Key, SaveIdx: 9000 + i}, Call: int64(-100 + 2*i), Output: ksOut{}, Return: int64(-99 + 2*i)})
+		}
 		maxT := s.step + 10
 		for _, h := range s.hist {
 			in := ksIn{Kind: h.Op.Kind, Addr: h.Op.Addr, Key: h.Op.Key, SaveIdx: h.Task*100 + h.Idx}
@@ -573,6 +598,12 @@ func runKsScript(sc *KsScript, scratch string) *KsResult {
 	}
 	// after a process crash: a new process opens the same directory; nothing may panic, no wrong key may be returned
 	saved := map[string]map[string]bool{}
+	for _, op := range sc.Preload {
+		if saved[op.Addr] == nil {
+			saved[op.Addr] = map[string]bool{}
+		}
+		saved[op.Addr][op.Key] = true
+	}
 	for _, h := range s.hist {
 		if h.Op.Kind == "save" {
 			if saved[h.Op.Addr] == nil {
